@@ -305,6 +305,48 @@ def run_case_(case, res):
         res.count('die_before_copy_outside_carve_out_skipped')
         m.destroy()
         return
+    if mode == 'fault-in-batch':
+        # the tool is interrupted (Ctrl-C) while it is FILLING a write batch: nothing of that
+        # batch may reach the database.  Every batch of the run x every operation index.
+        from vf import fakeplyvel
+        try:
+            snapshot = m.snapshot()
+            w = open_compacting(m, max_rows)
+            base_batches = m.stores.batches_created
+            try:
+                tool_loop(w, limit)
+            finally:
+                w.close(destroy=False)
+            sizes = {n - base_batches: sz for n, sz in m.stores.batch_sizes.items() if n > base_batches}
+        finally:
+            m.destroy()
+        for rel, size in sorted(sizes.items()):
+            for op in range(0, size + 1) if size <= 6 else sorted({0, 1, size // 2, size - 1, size}):
+                failures = []
+                m2 = world.Machine.from_snapshot(snapshot)
+                try:
+                    w = open_compacting(m2, max_rows)
+                    m2.stores.fault = (m2.stores.batches_created + rel, op)
+                    try:
+                        tool_loop(w, limit)
+                        interrupted = False
+                    except fakeplyvel.InjectedFault:
+                        interrupted = True
+                    finally:
+                        w.close(destroy=False)
+                    m2.stores.fault = None
+                    res.count('faults_in_batches')
+                    if interrupted:
+                        continue_serving(m2, sim, before, res, failures, 'interrupted-in-batch',
+                                         None, max_rows)
+                finally:
+                    m2.destroy()
+                res.count('executions')
+                for field, detail in failures[:1]:
+                    res.violation(field, dict(case), dict(field=field, batch=rel, op=op,
+                                  **{a: b for a, b in detail.items() if a in ('hashX', 'got', 'want', 'error')}))
+        res.distinct('modes', mode)
+        return
     if mode == 'kill-at-effect':
         # the tool is killed after EVERY durable effect it produces (each LevelDB batch commit,
         # each direct put) - whatever the code considers a batch; then the server, or the tool
@@ -465,6 +507,7 @@ def cases_for(tier):
                 if limit != 1 or rows > 1:
                     cases.append(dict(chain=chain_name, rows=rows, limit=limit, mode='kill-at-effect',
                                       then='index'))
+                    cases.append(dict(chain=chain_name, rows=rows, limit=limit, mode='fault-in-batch'))
     return cases
 
 
